@@ -29,6 +29,8 @@ func checkCase(c *Case) error {
 		return checkRawTU(c)
 	case "ops":
 		return checkOps(c)
+	case "predef":
+		return checkPredef(c)
 	}
 	return fmt.Errorf("generator error: unknown kind %q", c.Kind)
 }
@@ -903,6 +905,10 @@ func classify(c *Case) (bool, []string) {
 			cls = append(cls, "incrementing-range")
 		}
 	}
+	if c.Kind == "predef" {
+		cls = append(cls, o.opsClasses...)
+		return len(c.Layers[0].Entries) > 0, cls
+	}
 	if c.Kind == "ops" {
 		cls = append(cls, o.opsClasses...)
 		return len(c.Ops) >= 3, cls
@@ -1066,6 +1072,12 @@ var opsProp = &vt.Prop[Case]{
 	Check: checkCase, Classify: classify, Render: renderOps,
 }
 
+var predefProp = &vt.Prop[Case]{
+	Property: property, Kind: "c13-predef",
+	Gen:   genPredef,
+	Check: checkCase, Classify: classify, Render: renderPredef,
+}
+
 var rawProp = &vt.Prop[Case]{
 	Property: property, Kind: "c13-raw",
 	Gen:   genRaw,
@@ -1077,11 +1089,16 @@ func init() {
 	vt.Register(tuProp)
 	vt.Register(rawProp)
 	vt.Register(opsProp)
+	vt.Register(predefProp)
 }
 
 func TestCID(t *testing.T) { cidProp.Run(t, vt.NewStats(property, "cid")) }
 func TestTU(t *testing.T)  { tuProp.Run(t, vt.NewStats(property, "tu")) }
 func TestRaw(t *testing.T) { rawProp.Run(t, vt.NewStats(property, "raw")) }
 func TestOps(t *testing.T) { opsProp.Run(t, vt.NewStats(property, "ops")) }
+
+// TestPredefClone runs in a process of its own (own job): it remaps clones of
+// the cached predefined CMaps and checks the cache against a snapshot.
+func TestPredefClone(t *testing.T) { predefProp.Run(t, vt.NewStats(property, "predef-clone")) }
 
 func TestReplay(t *testing.T) { vt.RunReplay(t) }
